@@ -140,7 +140,7 @@ func c05Run(env *core.Env, idx int) core.CaseResult {
 	var res core.CaseResult
 	rng := core.Rng(env.Seed, "C05", idx)
 	o := gen.WorldOpts{NDocs: 1 + rng.Intn(4), Cyclic: true, Nested: true, Chains: rng.Intn(3) == 0, HostileNames: true, HTTP: rng.Intn(2) == 0,
-		Elements: 2 + rng.Intn(2), MaxDepth: 1 + rng.Intn(3), RefDensity: 0.35, Siblings: rng.Intn(3) == 0, WholeDoc: rng.Intn(3) == 0}
+		Elements: 2 + rng.Intn(2), MaxDepth: 1 + rng.Intn(3), RefDensity: 0.35, Siblings: rng.Intn(3) == 0, WholeDoc: rng.Intn(3) == 0, PrefixDocs: idx%4 == 0}
 	w := gen.GenWorld(rng, o)
 	in := oworld(w)
 	res.Hash = core.HashOf(w.Docs)
@@ -263,7 +263,12 @@ func c05Run(env *core.Env, idx int) core.CaseResult {
 		answers := map[string]c05Answer{}
 		for _, rp := range reps {
 			ld := newLoader(w)
-			opts := &spec.ExpandOptions{RelativeBase: w.Root, PathLoader: ld.load}
+			// what a reference designates does not depend on the expansion flags of the option structure it travels with
+			flags := (idx + len(answers)) % 5
+			opts := &spec.ExpandOptions{RelativeBase: w.Root, PathLoader: ld.load, ContinueOnError: flags == 1 || flags == 4, SkipSchemas: flags == 2 || flags == 4, AbsoluteCircularRef: flags == 3}
+			if opts.ContinueOnError {
+				res.Count("options.continue-on-error", 1)
+			}
 			if !rp.withBase {
 				opts = nil
 			}
@@ -273,7 +278,7 @@ func c05Run(env *core.Env, idx int) core.CaseResult {
 				before, _ = oracle.Norm(root)
 			}
 			if !rp.withBase && (t.kind == "pathItem" || t.kind == "items") {
-				opts = &spec.ExpandOptions{PathLoader: ld.load} // these two always take options
+				opts = &spec.ExpandOptions{PathLoader: ld.load, ContinueOnError: flags == 1 || flags == 4} // these two always take options
 			}
 			got := c05Resolve(t.kind, root, ref, opts, rp.withBase)
 			res.Evals++
@@ -314,13 +319,13 @@ func init() {
 		ID:    "C05",
 		Level: "exploration",
 		Rule: "G-WORLD documents with hostile element names ('/', '~', '%', '#', '?', space, braces, non-ASCII); up to 60 references per world to every element reachable by containment (definitions, nested sub-schemas, parameters, items, responses, path items) " +
-			"in root, sibling, sub-/parent-directory and http documents, spelled fragment-only/relative/root-relative/absolute, plus dangling pointers and documents; resolved through Resolve{Ref,Parameter,Response,PathItem,Items}[WithBase] with the root as typed object, generic JSON and location only; " +
+			"in root, sibling, sub-/parent-directory and http documents, spelled fragment-only/relative/root-relative/absolute, plus dangling pointers and documents; resolved through Resolve{Ref,Parameter,Response,PathItem,Items}[WithBase] with the root as typed object, generic JSON and location only, the option structure carrying every combination of expansion flags; " +
 			"expected = RFC 3986 (net/url) + own RFC 6901 evaluation, pushed through the kind's codec. non-trivial = escaped token, depth >= 3, other document or dangling; distinct by world",
 		NumCases: c05NumCases,
 		Run:      c05Run,
 		Floors: func(env *core.Env) []string {
 			return []string{"kind.schema", "kind.parameter", "kind.response", "kind.pathItem", "kind.items", "root.typed", "root.generic", "root.location-only", "root.typed(no-base)",
-				"root.generic(no-base)", "fault.dangling-pointer", "fault.dangling-pointer(absent-keyword)", "fault.dangling-document", "escaped-token", "cross-document", "form.fragment", "form.rel", "form.abs", "form.rootrel"}
+				"root.generic(no-base)", "fault.dangling-pointer", "fault.dangling-pointer(absent-keyword)", "fault.dangling-document", "escaped-token", "cross-document", "options.continue-on-error", "form.fragment", "form.rel", "form.abs", "form.rootrel"}
 		},
 		Assumptions: []string{"the expected value is the designated JSON after the kind's own codec (C01 owns codec losses)", "the zero Ref{} is not a reference and is left out"},
 	})
